@@ -465,6 +465,14 @@ def _import_constructor(loader, node):
 
 
 @rethrow_as_parsing_error
+def _import_constructor_md(loader, tag_suffix, node):
+    import importlib
+    module = importlib.import_module('.nodes.import', package='awesomeyaml')
+    kwargs = _decode_metadata(tag_suffix)
+    return _make_node(loader, node, kwargs=kwargs, node_type=module.ImportNode, parse_scalars=False)
+
+
+@rethrow_as_parsing_error
 def _required_constructor(loader, node):
     from .nodes.required import RequiredNode
     return _make_node(loader, node, node_type=RequiredNode)
@@ -588,6 +596,7 @@ add_constructor('!eval', _simple_eval_constructor)
 add_constructor('!fstr', _fstr_constructor)
 add_implicit_resolver('!fstr', _fstr_regex)
 add_constructor('!import', _import_constructor)
+add_multi_constructor('!import:', _import_constructor_md)
 add_constructor('!required', _required_constructor)
 add_multi_constructor('!required:', _required_constructor_md)
 add_constructor('!null', _none_constructor)
@@ -602,7 +611,7 @@ add_multi_constructor('!clear:', _clear_constructor_md)
 add_constructor('!extend', _extend_constructor)
 add_multi_constructor('!extend:', _extend_constructor_md)
 add_constructor('!rec', _rec_constructor)
-add_constructor('!rec:', _rec_constructor_md)
+add_multi_constructor('!rec:', _rec_constructor_md)
 
 
 def _node_representer(dumper, node):
